@@ -2575,9 +2575,16 @@ impl<E: Effect> Executor<E> {
 
         // The message clone enters the select_state.receiving slot.
         self.retain(&message);
+        let mut displaced = None;
         if let Some(state) = &mut proc.select_state {
-            state.receiving = Some((receive_idx, message.clone()));
+            // A higher-priority source may start a filter call while a lower-priority filter's
+            // message is still held (a message arrived while that filter was running): the
+            // held message leaves the slot, so its reference must be released.
+            displaced = state.receiving.replace((receive_idx, message.clone()));
             state.cursors[receive_idx] = msg_idx;
+        }
+        if let Some((_, old_message)) = &displaced {
+            self.release(old_message);
         }
 
         // The message (parameter) and source (the receive function) enter the call's stack frame.
